@@ -124,7 +124,8 @@ def run(tier, v):
     rng = random.Random(vlib.seed())
     # ---- (a) option encodings from TLC
     optframes, h2shapes, tlsshapes = [], [], []
-    sink = {"REPLAY": lambda o: optframes.append(bytes(o["f"])), "H2": lambda o: h2shapes.append(bytes(o["b"])), "TLS": lambda o: tlsshapes.append(bytes(o["b"]))}
+    tlsmeta = []
+    sink = {"REPLAY": lambda o: optframes.append(bytes(o["f"])), "H2": lambda o: h2shapes.append(bytes(o["b"])), "TLS": lambda o: (tlsshapes.append(bytes(o["b"])), tlsmeta.append((bytes(o["b"]), o["field"], o["delta"])))}
     r = vlib.tlc("MC_C01", pid=PID, workers=8, tags=("REPLAY", "H2", "TLS"), tag_sink=lambda tag, o: sink[tag](o), env={"VERIF_TIER": tier}, timeout=3000, heap="10g", coverage=False)
     if not (optframes and h2shapes and tlsshapes):
         raise vlib.ToolError("MC_C01 produced no inputs for one family")
@@ -251,6 +252,37 @@ def run(tier, v):
             for pb in o["probe_bad"]:
                 v.violation({"entry": ln["entry"], "observed": "a well-formed probe gives a different result on the used instance", "after_input_index": pb["after_input"],
                              "inputs_before": ln["inputs"][max(0, pb["after_input"] - 50):pb["after_input"] + 1][:60], "fresh": pb["fresh"], "used": pb["used"]})
+    # ---- not poisoned per connection either: a COMPLETE handshake record that is wrong inside (one inner length field off) must leave
+    # nothing behind on its 4-tuple: a well-formed ClientHello that follows on the same 4-tuple is reported as on a fresh instance
+    good = c10.hello("after.example")
+    pair_lines = [{"id": 0, "op": "packets", "frames": [c10.frame((10, 4, 0, 1), (10, 4, 0, 2), 42000, 443, 1, 1, 0x18, good, ipid=1).hex()]}]
+    pmeta = {}
+    for k, (b, field, delta) in enumerate(sorted(set(tlsmeta))):
+        if field == "rec" or delta == 0:
+            continue                     # a wrong record length makes the record incomplete or leaves a tail: stream semantics, not an error
+        cp = 42001 + k
+        pair_lines.append({"id": k + 1, "op": "packets", "frames": [c10.frame((10, 4, 0, 1), (10, 4, 0, 2), cp, 443, 1, 1, 0x18, b, ipid=2).hex(),
+                                                                     c10.frame((10, 4, 0, 1), (10, 4, 0, 2), cp, 443, 1 + len(b), 1, 0x18, good, ipid=3).hex()]})
+        pmeta[k + 1] = (field, delta, b)
+    preq2 = os.path.join(wd, "pair.req")
+    vlib.write_ndjson(preq2, pair_lines)
+    pout2 = os.path.join(wd, "pair.out")
+    vlib.run_hv("tls", preq2, pout2)
+    want_sig = None
+    for o in vlib.read_ndjson(pout2):
+        if o["id"] == 0:
+            want_sig = o["out"][0]["out"]["sig"] if o["out"][0]["r"] == "some" else None
+            if want_sig is None:
+                raise vlib.ToolError("the reference ClientHello is not reported on a fresh instance")
+            continue
+        field, delta, b = pmeta[o["id"]]
+        last = o["out"][-1]
+        n_inputs += 2
+        if last["r"] == "panic":
+            v.violation({"entry": "tls (same 4-tuple)", "input": b.hex(), "observed": "panic: %s" % last.get("e")})
+        elif last["r"] != "some" or last["out"]["sig"] != want_sig:
+            v.violation({"entry": "tls (same 4-tuple)", "first_segment": b.hex(), "what_is_wrong_in_it": "length field `%s` off by %d" % (field, delta),
+                         "observed": "the well-formed ClientHello that follows on the same 4-tuple is not reported as on a fresh instance (%s)" % last["r"]})
     # pools: dispatch a slice of the mutated frames followed by a probe connection; the probe's results must arrive (worker liveness)
     pool_lines = []
     sl = inputs["frame"][: (4000 if tier == "thorough" else 600)]
